@@ -22,7 +22,10 @@ tvars == <<vars, l>>
 TInit == l = 1 /\ RunInit(<<>>) /\ phase = "done"
 IsEvent(e) == l <= Len(Rec) /\ Rec[l].ev = e /\ l' = l + 1
 
+\* a history is reset, then (unless the constructor failed) depth for k = 1, 2, .., MaxK in this order;
+\* npaths (unused otherwise here) counts the depth events seen
 TReset == /\ IsEvent("reset")
+          /\ phase = "done" \/ failed \/ npaths = MaxK
           /\ LET b == Rec[l].body
                  r == IF Fails(b) THEN [last |-> EmptyFn, edges |-> <<>>] ELSE LoopResult(b) IN
              /\ \A n \in DOMAIN b : WellFormedInstr(b[n])
@@ -33,11 +36,11 @@ TReset == /\ IsEvent("reset")
 
 TDepth == /\ IsEvent("depth")
           /\ phase = "run" /\ ~failed
-          /\ Rec[l].k \in 1..MaxK
+          /\ Rec[l].k = npaths + 1 /\ Rec[l].k \in 1..MaxK /\ npaths' = npaths + 1
           /\ Rec[l].depth = TableDepth(body, Rec[l].k)                       \* C29
           /\ Strict => Rec[l].depth = PathMax(body, edges, Rec[l].k)
           /\ best' = [best EXCEPT ![Rec[l].k] = Rec[l].depth]
-          /\ UNCHANGED <<body, pc, last, edges, failed, stack, npaths, phase>>
+          /\ UNCHANGED <<body, pc, last, edges, failed, stack, phase>>
 
 TNext == TReset \/ TDepth
 TSpec == TInit /\ [][TNext]_tvars
